@@ -2,6 +2,7 @@
 from __future__ import annotations
 
 import ast
+import re
 import itertools
 from typing import Dict, List, Optional, Set, Tuple
 
@@ -395,6 +396,10 @@ def _s3(program, res, impl, tmeth):
             continue
         txt = unparse(pol[op])
         prim = [k for k in facts.NULL_SEMANTICS if k.startswith("pl.") and k in txt]
+        from .c03 import propagates_nulls
+        if prim and want == "propagate" and propagates_nulls(pol[op]):
+            res.ok("C05-S3", f"Polars {op}: null when any operand is null, else {prim[0]}: documented '{want}'")
+            continue
         if prim and facts.NULL_SEMANTICS[prim[0]] != want:
             res.fail("C05-S3", "polars_model:PolarsModel.__init__", f"polars:{op}",
                      f"Polars binds `{op}` to `{txt}`; {prim[0]} {facts.NULL_SEMANTICS[prim[0]]}s nulls but `{op}` is documented to "
@@ -406,6 +411,39 @@ def _s3(program, res, impl, tmeth):
         if a in pol and b in pol and unparse(pol[a]) == unparse(pol[b]):
             res.notes.append(f"Polars binds {a} and {b} to the same implementation although their null contracts differ (reported per method above)")
     res.assumptions.append("null behaviour of numpy.maximum/minimum/fmax/fmin and polars max_horizontal/min_horizontal (sa/facts.py NULL_SEMANTICS)")
+
+
+def _s4_slice_contract(program, res):
+    """x.trimstr(start, stop) is documented (and implemented on Pandas) as the slice x[start:stop]; SQL's SUBSTR takes a 1-based start and a
+    *length*: the template's third SUBSTR argument has to be built from stop and start, not from stop alone"""
+    import ast as _ast
+    f = program.module("sql_model").functions.get("_trimstr")
+    if f is None:
+        raise AnalysisError("anchor vanished: sql_model._trimstr")
+    res.analysed(f)
+    rets = [r.value for r in _ast.walk(f.node) if isinstance(r, _ast.Return) and r.value is not None]
+    if len(rets) != 1:
+        raise AnalysisError("_trimstr: expected one return")
+
+    def ops(e):
+        if isinstance(e, _ast.BinOp) and isinstance(e.op, _ast.Add):
+            return ops(e.left) + ops(e.right)
+        return [e]
+
+    parts = ops(rets[0])
+    # split the operands at the string constants that contain the argument separators of SUBSTR( a , b , c )
+    seps = [i for i, p_ in enumerate(parts) if isinstance(p_, _ast.Constant) and isinstance(p_.value, str) and "," in p_.value]
+    if len(seps) < 2 or not (isinstance(parts[0], _ast.Constant) and "SUBSTR" in str(parts[0].value).upper()):
+        raise AnalysisError("_trimstr: SUBSTR(a, b, c) template not recognised")
+    third = parts[seps[1]:]
+    idx = {int(m.group(1)) for p_ in third for m in re.finditer(r"expression\.args\[(\d)\]", unparse(p_))}
+    minus = any(isinstance(p_, _ast.Constant) and isinstance(p_.value, str) and "-" in p_.value for p_ in third)
+    if {1, 2} <= idx and minus:
+        res.ok("C05-S4", "trimstr: SUBSTR length is stop - start")
+    else:
+        res.fail_at("C05-S4", f, "trimstr-length-is-stop",
+                    f"_trimstr emits SUBSTR(x, 1 + start, <args {sorted(idx)}>): the third argument of SUBSTR is a length, so x.trimstr(1, 3) of 'abcdef' returns 'bcd' in every "
+                    f"SQL dialect and 'bc' on Pandas (str.slice(start, stop)); the two agree only for start = 0", rets[0])
 
 
 def run(program, res, tier):
@@ -428,5 +466,7 @@ def run(program, res, tier):
     _s2(program, res, all_d)
     _require_decided(res)
     _s3(program, res, impl, tmeth)
+    res.rule("C05-S4", "string slicing: SUBSTR's length argument is stop - start")
+    _s4_slice_contract(program, res)
     res.assumptions.append("SQLite/PostgreSQL built-in function lists and meaning vocabulary (sa/facts.py)")
     res.extra["sqlite_registered_functions"] = len(registered)
